@@ -766,8 +766,11 @@ class CodeGenerator:
         elif isinstance(target, ast.Constant):
             expr.lvalue = False
             c_val = self.context.get_constant_value(target)
-            c_typ = self.get_ir_type(target.typ)
-            value = self.emit(ir.Const(c_val, target.name, c_typ))
+            if isinstance(c_val, str):
+                value = self.gen_string_data(c_val)
+            else:
+                c_typ = self.get_ir_type(target.typ)
+                value = self.emit(ir.Const(c_val, target.name, c_typ))
         else:  # pragma: no cover
             raise NotImplementedError(str(target))
         return value
@@ -859,9 +862,7 @@ class CodeGenerator:
 
         # Construct correct const value:
         if isinstance(expr.val, str):
-            cval = self.context.pack_string(expr.val)
-            value = self.emit(ir.LiteralData(cval, "strval"))
-            value = self.emit(ir.AddressOf(value, "addr"))
+            value = self.gen_string_data(expr.val)
         elif isinstance(expr.val, int):  # boolean is a subclass of int!
             # For booleans, use the integer as storage class:
             val = int(expr.val)
@@ -872,6 +873,12 @@ class CodeGenerator:
         else:  # pragma: no cover
             raise NotImplementedError(str(expr.val))
         return value
+
+    def gen_string_data(self, txt):
+        """Emit the data of a string, and return its address"""
+        cval = self.context.pack_string(txt)
+        value = self.emit(ir.LiteralData(cval, "strval"))
+        return self.emit(ir.AddressOf(value, "addr"))
 
     def gen_type_cast(self, expr):
         """Generate code for type casting"""
